@@ -13,7 +13,7 @@ CLAIMS = {
                  "Kernel-checked only for VimSpec, the documented single-line fragment {h l 0 $ x X with counts}: the normal-mode cursor invariant for every key "
                  "string, motions never change the text, what [n]x / [n]X remove, and [n+1]x = x;[n]x exactly when enough characters remain (with the end-of-line "
                  "counter-example); and conformance of the vicut model with VimSpec on that fragment: for every one-line buffer, cursor and count the C08 "
-                 "motion/operator model (tied to the real eval_motion/exec_verb by the correspondence check) computes VimSpec's result for [n]h and [n]l and leaves "
+                 "motion/operator model (tied to the real eval_motion/exec_verb by the correspondence check) computes VimSpec's result for [n]h, [n]l, 0 and $ and leaves "
                  "VimSpec's text for [n]x and [n]X. VimSpec itself is compared with the recorded Vim on every case of its fragment.",
         "note": NOTE_COMMON + " This property is conformance to an external program over a finite recorded corpus: outside the VimSpec fragment the replay is a differential "
                 "test, not a proof, and is labelled as such. 33% of the corpus deviated at the pinned commit (70 717 cases: line-end and final-newline handling, whole-line "
